@@ -128,6 +128,46 @@ func DecodeLogRecord(data []byte) *LogRecord {
 	}
 }
 
+// validLogRecord 校验由若干 chunk 拼接得到的日志记录是否与其头部声明的长度一致.
+// 每个 chunk 的校验和只能保证该 chunk 自身完整; 数据文件缺失了一部分 (例如整个 block) 时,
+// 属于不同记录的 chunk 会被拼接在一起: 结果短于头部声明的长度时直接解码会发生切片越界,
+// 长于声明的长度时会返回从未写入过的数据. 编码结果的长度总是恰好等于头部声明的长度
+func validLogRecord(data []byte) bool {
+	if len(data) == 0 {
+		return false
+	}
+	idx := 1
+	keySize, n := binary.Varint(data[idx:])
+	if n <= 0 || keySize < 0 || keySize > int64(len(data)) {
+		return false
+	}
+	idx += n
+	valueSize, n := binary.Varint(data[idx:])
+	if n <= 0 || valueSize < 0 || valueSize > int64(len(data)) {
+		return false
+	}
+	idx += n
+	_, n = binary.Uvarint(data[idx:])
+	if n <= 0 {
+		return false
+	}
+	idx += n
+	return int64(idx)+keySize+valueSize == int64(len(data))
+}
+
+// validHintRecord 校验 hint 记录的四个位置字段均可解码
+func validHintRecord(buf []byte) bool {
+	idx := 0
+	for i := 0; i < 4; i++ {
+		_, n := binary.Uvarint(buf[idx:])
+		if n <= 0 {
+			return false
+		}
+		idx += n
+	}
+	return true
+}
+
 func DecodeLogRecordValue(data []byte) []byte {
 	idx := 1
 	keySize, n := binary.Varint(data[idx:])
